@@ -2,8 +2,9 @@ from common import *
 from regcommon import *
 import C01
 ID = 'C02'
-TRANSLATORS = []
-COQ_TARGETS = ['Properties_C02.vo']
+TRANSLATORS = [('consts2coq.py', ['coq/Gen/Consts.v'])]
+GEN_FILES = ['coq/Gen/Consts.v']
+COQ_TARGETS = ['Properties_C02.vo', 'Proof/ConstsReg.vo']
 HARNESS_MODS = ['reg']
 RULE = ('reg.run cases (see C01) whose operations are block writes: tables from the small-scope family (1-3 areas adjacent or with gaps, RW/RO/WO, memory/callback backed; u16/u32/u64/signed/float '
         'registers with every constraint kind at every alignment), EVERY (address, length) in a window from 2 below the lowest base to 2 above the highest end, word patterns all-zero, all-ones, '
